@@ -51,10 +51,38 @@ def fill (d ps : Nat) (rows : List Row) : BT :=
   let bt := fillLeaves d ps rows leafStart np (fun _ => none)
   fillUp d D (parent leafStart) (parent (len - 1)) bt
 
+/-! ### the same pass on the array itself (a list of rows that is updated in place) - what the driver runs -/
+
+/-- the page loop on the array -/
+def fillLeavesL (d ps : Nat) (rows : List Row) (leafStart np : Nat) (bt : List (Option NBox)) : List (Option NBox) :=
+  (List.range np).foldl (fun bt page => bt.set (leafStart + page) (pageBox d ((rows.drop (page * ps)).take ps))) bt
+
+/-- the body of the node loop on the array -/
+def fillNodeL (d : Nat) (bt : List (Option NBox)) (node : Nat) : List (Option NBox) :=
+  match bt.getD (leftChild node) none, bt.getD (rightChild node) none with
+  | some l, some r => bt.set node (some (unionBox d l r))
+  | some l, none => bt.set node (some l)
+  | none, some r => bt.set node (some r)
+  | none, none => bt
+
+def fillLayerL (d : Nat) (bt : List (Option NBox)) (start stop : Nat) : List (Option NBox) :=
+  (List.range (stop + 1 - start)).foldl (fun bt i => fillNodeL d bt (start + i)) bt
+
+def fillUpL (d : Nat) : Nat → Nat → Nat → List (Option NBox) → List (Option NBox)
+  | 0, _, _, bt => bt
+  | l + 1, s, e, bt => fillUpL d l (parent s) (parent e) (fillLayerL d bt s e)
+
+/-- `bounds_tree` as `_build_hilbert_rtree` leaves it: `np.full((tree_length, 2n), nan)`, the page loop, the layer loops -/
+def fillL (d ps : Nat) (rows : List Row) : List (Option NBox) :=
+  let np := numPages rows.length ps
+  let D := clog2 np
+  let len := 2 * 2 ^ D - 1
+  let leafStart := len - 2 ^ D
+  let bt := fillLeavesL d ps rows leafStart np (List.replicate len none)
+  fillUpL d D (parent leafStart) (parent (len - 1)) bt
+
 /-- the rows of `bounds_tree` as the coded pass produces them -/
-def boundsTreeCoded (d ps : Nat) (sorted : List Row) : List (Option NBox) :=
-  let D := clog2 (numPages sorted.length ps)
-  (List.range (2 * 2 ^ D - 1)).map (fill d ps sorted)
+def boundsTreeCoded (d ps : Nat) (sorted : List Row) : List (Option NBox) := fillL d ps sorted
 
 /-- `btreec <d> <page_size> [[key box…]…]` → the rows of `bounds_tree` by the coded pass (`N` = NaN row) -/
 def run : List V → Option String
